@@ -16,11 +16,25 @@ legs: MC   TLC: under EVERY interleaving of the per-row steps (NextRow, EvalBala
            grants; Trace_Balance replays the log through the actions of Balance and judges the rows.
       A mismatch is replayed by TLC on the mechanism as shipped before fix 678e809 (one process-wide cache entry): if that
       explains the observation exactly the violation gets the key of that defect (listed as fixed in known_findings.d).
+
+The whole execution (spec/Isolate.tla, harness/isolate.py) -- compilation followed by the scan, plain columns, parameters:
+      MC   every interleaving of the COMPILATION steps (parameters stored, FROM, wildcard, names resolved, parameter
+           values read, query built) and the scan steps (row advance, WHERE test, one step per target) of 2 threads x 3
+           directives / 3 threads x 2: each thread's rows are its serial rows, its statement is bound to its own
+           parameters, every value belongs to the row of its own scan; non-interference; termination.  Non-vacuity: one
+           compiler kept per connection, and a column accessor remembering the current row by rowid, are both refuted.
+      S2C  TLC enumerates every pause-point schedule of six job families (same text with different parameters on one
+           connection, SELECT *, two tables of one connection, two ledgers, 3 threads mixed); pause points INSIDE the
+           compilation are reached through folded BQL functions, the tables' wildcard_columns property and the
+           parameters container; the abstract columns are realised by every plain column of #entries / #postings
+           (id, date, narration, payee, links, tags, description, lineno, account, number, position, ...).
+      C2S  seeded runs of 2..4 threads with random jobs over 1..3 connections, grant log judged by Trace_Isolate.
 """
 import json
 import random
 
 from harness import balance as hb
+from harness import isolate as iso
 from harness import sched
 from harness.core import MachineryError
 
@@ -340,6 +354,7 @@ def run(ctx):
     rng = ctx.rng
     sched.register()
     suspects = Suspects()
+    background = isolate_start(ctx)       # records the random runs, then TLC works on Isolate while the legs below run
     if getattr(beanquery, 'threadsafety', None) != 2:
         ctx.violation('module:threadsafety', 'the module advertises DB-API thread safety level 2', {'kind': 'attr'}, 'S2C', 2,
                       getattr(beanquery, 'threadsafety', None))
@@ -379,6 +394,7 @@ def run(ctx):
     ctx.leg('S2C', replays=n, all_schedules_of_the_enumerated_configurations_replayed=not q,
             note='3x3 (3 threads x 3 rows x 2 pauses) is sampled by simulation in both tiers')
     shared_text_leg(ctx, ctx.pick(90, 1500))
+    isolate_finish(ctx, background)
     ctx.exhaustive = False
     # ---- C2S
     nruns = ctx.pick(150, 2500)
@@ -481,9 +497,286 @@ def shared_text_leg(ctx, nruns):
     ctx.leg('S2C', shared_text_runs=nruns, shared_text_bad=bad)
 
 
+
+# ---- the whole execution: compilation + scan, plain columns, parameters (spec/Isolate.tla) -----------------------------------
+ICOVER = ('Begin', 'From', 'Resolve', 'Bind', 'CompilePause', 'Build', 'NextRow', 'Finish', 'Test', 'Column', 'Yield',
+          'Const', 'EmitRow')
+ISO_LIMITS = {'params': (20, None), 'star': (20, None), 'rows': (70, None), 'tables': (110, None), 'mix3': (120, 3000),
+              'sep3': (80, 2000)}        # schedules replayed per family (quick, thorough); None = all
+ISO_REPEAT = {'params': 2, 'star': 1, 'rows': 3}     # small families: every schedule with several column choices
+
+
+def atom(k, i=0):
+    return {'k': k, 'i': i}
+
+
+def random_jobs(rng):
+    nt = rng.choice((2, 2, 3, 4))
+    nconn = rng.randint(1, min(3, nt))
+    ledgers = {}
+    for g in (1, 2):
+        ledgers[g] = [{'u': 10 * g + d, 'posts': [100 * g + 10 * d + j for j in range(1, 1 + rng.choice((0, 1, 1, 2)))]}
+                      for d in range(1, 1 + rng.randint(1, 4))]
+    of_conn = {c: ledgers[rng.choice((1, 2))] for c in range(1, nconn + 1)}
+    conns = list(range(1, nconn + 1)) + [rng.randint(1, nconn) for _ in range(nt - nconn)]
+    rng.shuffle(conns)
+    jobs = []
+    for c in conns:
+        tab = rng.choice('ep')
+        star = rng.random() < 0.15
+        targets = [] if star else [rng.choice((atom('col', 1), atom('col', 2), atom('col', 2), atom('col', 3), atom('rp'),
+                                               atom('rp'), atom('cp'))) for _ in range(rng.randint(1, 4))]
+        if not star and not any(a['k'] == 'col' for a in targets):
+            targets.insert(rng.randint(0, len(targets)), atom('col', 2))
+        where = rng.sample(['lo', 'hi', 'rp', 'cp'], rng.choice((0, 1, 1, 2, 2, 3)))
+        keys = [r[0] for r in iso.table_rows(of_conn[c], tab)] or [0]
+        jobs.append({'conn': c, 'ledger': of_conn[c], 'tab': tab, 'star': star, 'targets': targets,
+                     'where': [atom(k) for k in where], 'lo': rng.choice(keys + [min(keys) - 1]),
+                     'hi': rng.choice(keys + [max(keys) + 1]), 'lit': rng.random() < 0.4,
+                     'wpause': star and rng.random() < 0.6, 'ppause': rng.random() < 0.5})
+    return jobs
+
+
+def iso_key(jobs, what):
+    return 'exec:%s:%s' % (iso.conn_mode(jobs), what)
+
+
+def iso_judge(ctx, leg, case, desc, s, results, excs, texts, expected):
+    """one concurrent run against the rows the specification emitted (expected: {tid: rows} or None); True = clean"""
+    jobs = case.jobs
+    what = ' ;; '.join('T%d[conn %d]: %s' % (t, jobs[t - 1]['conn'], texts[t]) for t in sorted(texts))
+    ok = True
+    for tid, arg in s.mismatch:
+        ctx.violation(iso_key(jobs, 'pause-argument'), 'thread %s evaluated a pause point of thread %s: a statement ran with '
+                      'another execution\'s text, parameters or compiled form (%s)' % (tid, arg, what), desc, leg)
+        ok = False
+    for tid, ex in sorted(excs.items()):
+        if isinstance(ex, sched.ScheduleDiverged):
+            continue
+        kind = 'pause-value' if isinstance(ex, iso.PauseValue) else 'exception:%s' % type(ex).__name__
+        ctx.violation(iso_key(jobs, kind), 'thread %s raised %r; serial execution does not (%s)' % (tid, ex, what), desc, leg,
+                      None if expected is None else expected.get(tid), repr(ex))
+        ok = False
+    if s.diverged and ok:
+        ctx.violation(iso_key(jobs, 'schedule-diverged'), 'the run does not have the pause points of the specification\'s '
+                      'behaviour: %s (%s)' % (s.diverged, what), desc, leg)
+        return False
+    if expected is not None and ok:
+        for tid in sorted(expected):
+            if results.get(tid) != expected[tid]:
+                ctx.violation(iso_key(jobs, 'rows:' + iso.shape(jobs[tid - 1])),
+                              'thread %d does not get the rows of serial execution (%s)' % (tid, what), desc, leg,
+                              expected, results)
+                return False
+    return ok
+
+
+def iso_record(ctx, nruns, rng):
+    """C2S: seeded concurrent runs of random jobs; the scheduler picks the next thread itself and logs the grants"""
+    lines, meta = [], {}
+    for i in range(nruns):
+        jobs = random_jobs(rng)
+        pick = rng.randrange(10 ** 6)
+        seed = rng.randrange(2 ** 31)
+        case = iso.Case(jobs, pick)
+        s, results, excs, texts = iso.run_case(case, rng=random.Random(seed))
+        desc = {'kind': 'iso-random', 'jobs': jobs, 'pick': pick, 'sched_seed': seed, 'grants': list(s.log),
+                'style': case.describe()}
+        if not iso_judge(ctx, 'C2S', case, desc, s, results, excs, texts, None):
+            continue
+        rid = i + 1
+        nt = len(jobs)
+        lines.append({'k': 'begin', 'id': rid, 'jobs': jobs})
+        lines += [{'k': 'grant', 'id': rid, 't': t} for t in s.log]
+        lines.append({'k': 'end', 'id': rid, 'rows': [results[t] for t in range(1, nt + 1)]})
+        if i % 4 == 0:      # the same statements one after the other on the same connections
+            serial = iso.run_serial(case)
+            for t in range(1, nt + 1):
+                lines.append({'k': 'serial', 'id': rid, 'job': jobs[t - 1], 'rows': serial[t]})
+        meta[rid] = dict(desc=desc, rows=results, texts=texts)
+        ctx.case(json.dumps(['iso', jobs, s.log]), nontrivial=len(set(s.log)) > 1)
+        if i == 0:
+            ctx.sample({'leg': 'C2S', 'spec': 'Isolate', 'threads': nt, 'statements': texts, 'grants': s.log,
+                        'style': case.describe()})
+    return lines, meta
+
+
+def isolate_start(ctx):
+    """record the random runs now; then ONE background thread runs TLC on Isolate (model checking, non-vacuity,
+    schedule generator, judging the recorded runs) while the legs on Balance go on in the foreground"""
+    import concurrent.futures as cf
+    iso.register()
+    rng = random.Random(ctx.seed + 2020)
+    nruns = ctx.pick(90, 1500)
+    lines, meta = iso_record(ctx, nruns, rng)
+    # binding self-test: a copy of one recorded run with ONE value changed must be rejected
+    probe = []
+    for rid, m in sorted(meta.items()):
+        hit = [(t, n) for t in sorted(m['rows']) for n, r in enumerate(m['rows'][t]) if r]
+        if hit:
+            import copy
+            t, n = hit[-1]
+            rows = copy.deepcopy([m['rows'][u] for u in sorted(m['rows'])])
+            rows[t - 1][n][-1] += 1
+            src = [ln for ln in lines if ln['id'] == rid and ln['k'] in ('begin', 'grant')]
+            probe = [dict(ln, id=-1) for ln in src] + [{'k': 'end', 'id': -1, 'rows': rows}]
+            break
+    path = ctx.path('c20_isolate_trace.ndjson')
+    with open(path, 'w') as f:
+        for ln in lines + probe:
+            f.write(json.dumps(ln) + '\n')
+    w = 6
+
+    def work():
+        out = {}
+        out['mc2'] = ctx.tlc('MC_Isolate', 'MC_Isolate_2x3.cfg', leg='MC', workers=w)
+        out['mc3'] = ctx.tlc('MC_Isolate', 'MC_Isolate_3x2q.cfg', leg='MC', workers=w, must_cover=ICOVER)
+        if not ctx.quick:
+            out['mc3t'] = ctx.tlc('MC_Isolate', 'MC_Isolate_3x2.cfg', leg='MC', workers=w)
+        out['nv1'] = ctx.tlc('MC_Isolate', 'MC_Isolate_compiler.cfg', leg='MC-nonvacuity', expect_violation='OwnParameters',
+                             workers=2)
+        out['nv2'] = ctx.tlc('MC_Isolate', 'MC_Isolate_memo.cfg', leg='MC-nonvacuity', expect_violation='OwnRow', workers=2)
+        out['gen'] = ctx.tlc('Gen_Isolate', 'Gen_Isolate_all.cfg', leg='GEN', workers=w, timeout=ctx.pick(600, 3000))
+        out['trace'] = ctx.tlc('Trace_Isolate', 'Trace_Isolate.cfg', leg='C2S', workers=1, env={'TRACE_FILE': path},
+                               timeout=ctx.pick(900, 3000), jvm=('-Xss64m',))
+        return out
+    pool = cf.ThreadPoolExecutor(1)
+    fut = pool.submit(work)
+    pool.shutdown(wait=False)
+    return dict(future=fut, lines=lines, meta=meta, probe=probe, nruns=nruns, rng=rng)
+
+
+def isolate_finish(ctx, bg):
+    out = bg['future'].result()      # a MachineryError of the background thread is raised here
+    for k in ('mc2', 'mc3', 'mc3t'):
+        if k in out and out[k].violated:
+            ctx.violation('spec:isolate:' + ','.join(out[k].violated), 'TLC violates the property on the property-conforming '
+                          'mechanism of Isolate', {'behaviour': out[k].behaviour[:3000]}, 'MC')
+
+    def steps(res):
+        return [ln.split('<')[1].split(' ')[0] for ln in res.behaviour.split('\n')
+                if ln.startswith('State ') and '<' in ln and 'Initial' not in ln]
+    ctx.leg('MC', isolate_compiler_per_connection_schedule=steps(out['nv1']), isolate_rowid_memo_schedule=steps(out['nv2']))
+    # ---- S2C
+    rng = bg['rng']
+    fams = {}
+    for p in out['gen'].printed:
+        if isinstance(p, dict) and 'jobs' in p:
+            fams.setdefault(p['family'], {'scheds': {}})['jobs'] = p['jobs']
+        elif isinstance(p, dict) and 'sched' in p:
+            fams.setdefault(p['family'], {'scheds': {}})['scheds'].setdefault(tuple(p['sched']), p['out'])
+    if set(fams) != set(ISO_LIMITS) or any('jobs' not in f or not f['scheds'] for f in fams.values()):
+        raise MachineryError('Gen_Isolate emitted families %s' % sorted(fams))
+    total = 0
+    for name in sorted(fams):
+        jobs, scheds = fams[name]['jobs'], fams[name]['scheds']
+        nt = len(jobs)
+        outs = {json.dumps(o) for o in scheds.values()}
+        if len(outs) != 1:
+            raise MachineryError('the specification emits schedule-dependent rows in family %s' % name)
+        exp = {t + 1: json.loads(next(iter(outs)))[t] for t in range(nt)}
+        keys = sorted(scheds)
+        limit = ISO_LIMITS[name][0 if ctx.quick else 1]
+        if limit is not None and len(keys) > limit:
+            keys = rng.sample(keys, limit)
+        base = rng.randrange(10 ** 6)
+        nrun = nbad = nser = 0
+        for rep in range(ISO_REPEAT.get(name, 1) if ctx.quick else (7 if len(scheds) <= 500 else 1)):
+            for sc in keys:
+                pick = base + nrun
+                case = iso.Case(jobs, pick)
+                desc = {'kind': 'iso-schedule', 'family': name, 'jobs': jobs, 'sched': list(sc), 'pick': pick,
+                        'style': case.describe()}
+                if nrun % 10 == 0:
+                    # every job alone, one after the other: the serial results of the code are the specification's rows
+                    got = iso.run_serial(case)
+                    nser += 1
+                    for t in sorted(exp):
+                        if got[t] != exp[t]:
+                            ctx.violation('exec:serial:' + iso.shape(jobs[t - 1]), 'a statement run alone does not return the '
+                                          'rows of the specification: ' + case.statement(jobs[t - 1], t)[0],
+                                          dict(desc, kind='iso-serial', tid=t), 'S2C', exp[t], got[t])
+                s, results, excs, texts = iso.run_case(case, order=list(sc))
+                ok = iso_judge(ctx, 'S2C', case, desc, s, results, excs, texts, exp)
+                ctx.case(json.dumps(['iso', name, sc, pick]), nontrivial=len(set(sc)) > 1)
+                ctx.traces += 1
+                nrun += 1
+                nbad += not ok
+                if nrun == 1:
+                    ctx.sample({'leg': 'S2C', 'spec': 'Isolate', 'family': name, 'schedule': list(sc), 'statements': texts,
+                                'style': case.describe(), 'expected_rows': exp})
+        total += nrun
+        ctx.leg('S2C', **{'isolate_' + name: {'schedules_emitted': len(scheds), 'replays': nrun, 'serial_checks': nser,
+                                              'mismatching': nbad, 'connections': iso.conn_mode(jobs)}})
+    ctx.leg('S2C', isolate_replays=total)
+    # ---- C2S
+    res = out['trace']
+    lines, meta, probe = bg['lines'], bg['meta'], bg['probe']
+    verdicts = [p for p in res.printed if isinstance(p, dict)]
+    if res.violated:
+        ctx.violation('exec:trace-invariant:' + ','.join(res.violated), 'an invariant of Isolate fails on a recorded run',
+                      {'behaviour': res.behaviour[:2000]}, 'C2S')
+    else:
+        if not any(p.get('verdict') == 'consumed' and p['lines'] == len(lines) + len(probe) for p in verdicts):
+            raise MachineryError('trace c20_isolate_trace.ndjson not consumed (%d lines): %s' % (len(lines) + len(probe), res.errors[:2]))
+        if probe and not any(p.get('verdict') == 'rejected' and p['id'] == -1 for p in verdicts):
+            raise MachineryError('binding self-test (Isolate): the corrupted copy of a recorded run was not rejected')
+    rejected = [p for p in verdicts if p.get('verdict') == 'rejected' and p['id'] != -1]
+    for rj in rejected:
+        m = meta[rj['id']]
+        jobs = m['desc']['jobs']
+        what = ('serial:' if rj['kind'] == 'serial' else 'rows:') + (iso.shape(jobs[rj['thread'] - 1]) if 1 <= rj['thread'] <= len(jobs) else '-')
+        ctx.violation(iso_key(jobs, what), 'recorded run rejected by TLC: %s (thread %s, row %s) -- %s' % (
+            rj['why'], rj['thread'], rj['row'], ' ;; '.join('T%d: %s' % kv for kv in sorted(m['texts'].items()))),
+            dict(m['desc'], verdict=rj), 'C2S', None, m['rows'])
+    ctx.traces += len(meta) - len({rj['id'] for rj in rejected})
+    ctx.leg('C2S', isolate_runs=bg['nruns'], isolate_validated=len(meta), isolate_trace_lines=len(lines),
+            isolate_rejected=len(rejected), isolate_corrupted_runs_rejected=1 if probe else 0,
+            isolate_grants=sum(1 for ln in lines if ln['k'] == 'grant'))
+
+
+def iso_replay(ctx, rep):
+    case_d = rep['case']
+    jobs = case_d['jobs']
+    case = iso.Case(jobs, case_d['pick'])
+    serial = iso.run_serial(case)
+    print('replay: style', case.describe())
+    if case_d['kind'] == 'iso-serial':
+        print('replay: serial rows', serial[case_d['tid']], 'expected', rep.get('expected'))
+        same = serial[case_d['tid']] == rep.get('expected')
+        print('replay:', 'no mismatch' if same else 'MISMATCH reproduced')
+        return 0 if same else 1
+    case = iso.Case(jobs, case_d['pick'])
+    s, results, excs, texts = iso.run_case(case, order=case_d.get('sched') or case_d.get('grants'))
+    print('replay: statements', texts)
+    print('replay: grants', s.log, 'diverged:', s.diverged, 'exceptions:', excs, 'pause-argument mismatches:', s.mismatch)
+    print('  concurrent', results)
+    print('  serial    ', serial)
+    same = results == serial and not excs and not s.diverged and not s.mismatch
+    if same:
+        # let TLC judge the run again
+        lines = [{'k': 'begin', 'id': 1, 'jobs': jobs}] + [{'k': 'grant', 'id': 1, 't': t} for t in s.log]
+        lines.append({'k': 'end', 'id': 1, 'rows': [results[t] for t in range(1, len(jobs) + 1)]})
+        path = ctx.path('replay_isolate.ndjson')
+        with open(path, 'w') as f:
+            for ln in lines:
+                f.write(json.dumps(ln) + '\n')
+        res = ctx.tlc('Trace_Isolate', 'Trace_Isolate.cfg', leg='C2S', workers=1, env={'TRACE_FILE': path}, jvm=('-Xss64m',))
+        rej = [p for p in res.printed if isinstance(p, dict) and p.get('verdict') == 'rejected']
+        if rej or res.violated:
+            print('  TLC rejects the run:', rej or res.violated)
+            same = False
+    print('replay:', 'no mismatch (concurrent = serial = specification)' if same else
+          'MISMATCH reproduced (concurrent results differ from serial execution or from the specification)')
+    return 0 if same else 1
+
+
 def replay(ctx, rep):
     case = rep['case']
     sched.register()
+    if str(case.get('kind', '')).startswith('iso-'):
+        iso.register()
+        return iso_replay(ctx, rep)
     if case.get('kind') in ('schedule', 'random-run'):
         progs = case['progs']
         text = case.get('as_text', False)
